@@ -461,7 +461,8 @@ def main(chk: Check) -> None:
         chk.broken("translator", "C10/Gen.v", str(e))
     chk.forbidden_scan()
     if chk.coq_make(["C10/Proofs.vo", "C10/Extract.vo"]):
-        chk.audit_props("C10/Props.v")
+        if chk.audit_props("C10/Props.v") and chk.tier == "thorough":
+            chk.coqchk(["Wz.C10.Props"])
     else:
         chk.cov["obligations"] += 1
     chk.trusted += [
